@@ -1197,6 +1197,9 @@ def run(res: common.Result, build) -> int:
     run_anchors(res)
     run_unit(res, unit_cases(rng, res.tier, names, groups))
     run_docs(res, res.tier, names, groups, load_corpus())
+    from .. import crosscorr
+
+    crosscorr.run_cross(crosscorr.LIGHT["C12"], res)      # second tie: the whole-encoder correspondence class
     return common.finish(
         res, build, RULE, TRUSTED, ASSUME,
         explanation="C12_table_spec, C12_table_present_iff, C12_index_resolves, C12_default_zero, C12_index_in_range, "
@@ -1208,6 +1211,15 @@ def run(res: common.Result, build) -> int:
 
 
 def replay(payload) -> int:
+    _cross = payload.get("case") or {}
+    if not _cross.get("cross"):
+        for _b in payload.get("broken") or []:
+            if (_b.get("case") or {}).get("cross"):
+                _cross = _b["case"]
+    if _cross.get("cross"):
+        from .. import crosscorr
+
+        return crosscorr.replay_cross(crosscorr.LIGHT["C12"], _cross)
     case = payload.get("case") or {}
     tmp = common.Result("C12", "quick", 0)
     if case.get("level") == "doc":
